@@ -564,7 +564,7 @@ def value_point(rng, sol, sig, vals=None):
     if sol == 'rans_sa':
         return [hexf(exact_double(rng, 0.05, 0.95))]
     if sol == 'fans_sa_steady_wall_bounded':      # x, y > 0; wall distances over two decades
-        return [hexf(exact_double(rng, 0.2, 2.0)), hexf(round(10.0 ** rng.uniform(-6.0, -0.3) * 2 ** 40) / 2.0 ** 40)][:n]     # wall distances over almost six decades (an absolute perturbation of the wall distance shows only very near the wall); nu_sa > 0 needs y < kappa u_tau / alpha
+        return [hexf(exact_double(rng, 0.2, 2.0)), hexf(round(10.0 ** (rng.uniform(-6.0, -0.3) if rng.random() < 0.4 else rng.uniform(-2.0, -0.3)) * 2 ** 40) / 2.0 ** 40)][:n]     # wall distances over almost six decades (an absolute perturbation of the wall distance shows only very near the wall); nu_sa > 0 needs y < kappa u_tau / alpha
     if sol == 'euler_chem_1d':
         return [hexf(exact_double(rng, 0.0, 8.0))]
     if sol == 'sod_1d':
@@ -644,7 +644,7 @@ def gen_values(rng, sol, precs=('d', 'ld'), nassign=2, npts=3, evaluators=None, 
                 vals[k] = 0.0
         data = None
         if sol == 'cp_normal':
-            data = [exact_double(rng, -3.0, 3.0) for _ in range(rng.randint(1, 8))]
+            data = [exact_double(rng, -3.0, 3.0) for _ in range(2 * rng.randint(0, 3) + 1 + (ai % 2))]      # lengths 1..8, odd and even alternating
         rad = None
         if sol == 'radiation_integrated_intensity':
             n = rng.randint(1, 8)
